@@ -166,11 +166,127 @@ def scalar_eq_structure(f):
     return res
 
 
+GRAPH_QUICK = [('vec_graph::Graph', 3, 2, 'exact'), ('hash_graph::Graph', 11, 2, 'exact'), ('vec_graph::Graph', 13, 1, 'float')]
+GRAPH_THOROUGH = [('vec_graph::Graph', 1, 3, 'exact'), ('hash_graph::Graph', 1, 2, 'exact'), ('vec_graph::Graph', 2, 2, 'float')]
+CIRC_QUICK = [(1, 'exact'), (5, 'float')]
+CIRC_THOROUGH = [(1, 'exact'), (1, 'float')]
+PRIMS = ('ident', 'delta', 'cphase', 'hadamard', 'delta_at', 'cphase_at', 'hadamard_at', 'plug_n_qubits')
+
+
+def _d0(ck, facts):
+    """the statement itself on a small scope: tensor.rs interpreted on an ndarray host model (qxlib/tensorsem.py)"""
+    from .. import tensorsem as T
+    ck.decided('D0 (evaluation, small scope) the graph evaluator <G as ToTensor>::to_tensor — contraction order, seen-degree bookkeeping, index positions, Hadamard normalisation, the stored scalar — interpreted from its HIR on both graph '
+               'back ends, on an ndarray host model, for a finite family of well-formed diagrams (0..3 spiders of both colours with every edge pattern and up to three boundaries each way, several boundaries on one spider, closed and disconnected '
+               'diagrams, isolated spiders, boundaries wired straight to boundaries incl. crossings, cups and caps, circuit-like diagrams with a phase gadget), under several vertex numberings, in the exact number type and in Complex<f64> '
+               '(whose from_phase / sqrt2_pow impls in tensor.rs are interpreted): every entry equals the standard interpretation (brute-force contraction of qxlib/zxsem.py, which shares no code with tensor.rs), axes ordered inputs then outputs; '
+               'the circuit evaluator on every supported gate kind, every tuple of distinct qubits of 1..3 wires, pairs and longer sequences: every entry equals the product of the reference gate matrices in circuit order; unsupported kinds panic; '
+               'the QubitOps primitives against their definitions; compare / scalar_compare end to end on (diagram, circuit) pairs')
+    thorough = ck.tier == 'thorough'
+    site_g = ck.site('<G as tensor::ToTensor>::to_tensor') if ck.has_fn('<G as tensor::ToTensor>::to_tensor') else 'quizx/src/tensor.rs'
+    key_c = circuit_tensor_key(facts)
+    site_c = ck.site(key_c) if key_c else 'quizx/src/tensor.rs'
+    decided = set()
+    # graphs
+    try:
+        tot, bad, declined = T.run_graphs(facts, GRAPH_THOROUGH if thorough else GRAPH_QUICK, procs=16 if thorough else 8)
+        by = {}
+        for ty, num, kind, dia, order, what in bad:
+            by.setdefault((num, 'no-panic' if kind == 'panic' else 'entry-values'), []).append((ty, dia, order, what))
+        for num in ('exact', 'float'):
+            for clause in ('entry-values', 'no-panic'):
+                hit = by.get((num, clause), [])
+                if hit:
+                    ty, dia, order, what = hit[0]
+                    ck.ob('E3-tensor', 'graph-evaluator/%s/%s' % (num, clause), False, site_g, 'to_tensor of the diagram %s built on %s with the vertices created in the order %s: %s [%d such cases in this run]' % (dia, ty.split('::')[0], order, what, len(hit)))
+                else:
+                    ck.ob('E3-tensor', 'graph-evaluator/%s/%s' % (num, clause), True, site_g, '', sample={'diagrams': tot['diagrams'], 'evaluations': tot['evaluations']} if clause == 'entry-values' and num == 'exact' else None)
+        ck.floor('E3-tensor-graph-evaluations', tot['evaluations'], 20000 if thorough else 2500)
+        if tot['declined'] * 50 > max(1, tot['evaluations']):
+            k0 = sorted(declined)[0]
+            ck.ob3('E3-tensor', 'graph-evaluator/declined', None, site_g, 'the evaluator declined %d evaluations, e.g. %s on %s' % (tot['declined'], k0, declined[k0]))
+        elif not bad:
+            decided.add('graph')
+        ck.note('E3-tensor graphs: %d diagrams, %d evaluations (back ends x vertex orders x number types), %d declined' % (tot['diagrams'], tot['evaluations'], tot['declined']))
+    except (minirust.NoEval, minirust.Proceed) as ex:
+        ck.ob3('E3-tensor', 'graph-evaluator/evaluation', None, site_g, 'the evaluator declined (%s: %s)' % (type(ex).__name__, ex))
+    # circuits
+    try:
+        tot, bad, declined = T.run_circuits(facts, CIRC_THOROUGH if thorough else CIRC_QUICK, procs=8)
+        by = {}
+        for num, kind, circ, what in bad:
+            by.setdefault((num, 'no-panic' if kind == 'panic' else 'entry-values'), []).append((circ, what))
+        for num in ('exact', 'float'):
+            for clause in ('entry-values', 'no-panic'):
+                hit = by.get((num, clause), [])
+                if hit:
+                    ck.ob('E3-tensor', 'circuit-evaluator/%s/%s' % (num, clause), False, site_c, 'to_tensor of the circuit on %s: %s [%d such cases in this run]' % (hit[0][0], hit[0][1], len(hit)))
+                else:
+                    ck.ob('E3-tensor', 'circuit-evaluator/%s/%s' % (num, clause), True, site_c, '', sample={'circuits': tot['circuits'], 'kinds': tot['kinds']} if clause == 'entry-values' and num == 'exact' else None)
+        loud = T.unsupported_fail_loudly(facts)
+        ck.ob('E3-tensor', 'circuit-evaluator/unsupported-kinds-fail-loudly', not loud, site_c, 'a circuit with a gate kind the evaluator does not support must panic, but: %s' % ', '.join('%s %s' % x for x in loud))
+        ck.floor('E3-tensor-circuit-evaluations', tot['evaluations'], 1300)
+        ck.floor('E3-tensor-circuit-kinds', len(tot['kinds']), 15)
+        if tot['declined'] * 50 > max(1, tot['evaluations']):
+            k0 = sorted(declined)[0]
+            ck.ob3('E3-tensor', 'circuit-evaluator/declined', None, site_c, 'the evaluator declined %d evaluations, e.g. %s on %s' % (tot['declined'], k0, declined[k0]))
+        elif not bad and not loud:
+            decided.add('circuit')
+        ck.note('E3-tensor circuits: %d circuits, %d evaluations, kinds %s, %d declined' % (tot['circuits'], tot['evaluations'], ', '.join(tot['kinds']), tot['declined']))
+    except (minirust.NoEval, minirust.Proceed) as ex:
+        ck.ob3('E3-tensor', 'circuit-evaluator/evaluation', None, site_c, 'the evaluator declined (%s: %s)' % (type(ex).__name__, ex))
+    # primitives
+    try:
+        cases, bad = T.primitives(facts)
+        by = {}
+        for fn, case, what in bad:
+            by.setdefault(fn, []).append((case, what))
+        for fn in PRIMS:
+            hit = by.get(fn, [])
+            k_ = [k for k in facts['fns'] if k.endswith('tensor::QubitOps<A>>::' + fn)]
+            ck.ob('E3-tensor', 'primitives/' + fn, not hit, ck.site(k_[0]) if k_ else 'quizx/src/tensor.rs', ('%s (%s): %s [%d such cases]' % (fn, hit[0][0], hit[0][1], len(hit))) if hit else '')
+        ck.floor('E3-tensor-primitive-cases', cases, 100)
+    except (minirust.NoEval, minirust.Proceed) as ex:
+        ck.ob3('E3-tensor', 'primitives/evaluation', None, 'quizx/src/tensor.rs', 'the evaluator declined (%s: %s)' % (type(ex).__name__, ex))
+    # the comparison helpers end to end
+    try:
+        cases, bad = T.comparisons(facts)
+        by = {}
+        for fn, case, what in bad:
+            by.setdefault(fn, []).append((case, what))
+        for fn in ('compare', 'scalar_compare'):
+            hit = by.get(fn, [])
+            k_ = [k for k in facts['fns'] if k.endswith('tensor::CompareTensors>::' + fn)]
+            ck.ob('E3-tensor', 'helpers/' + fn, not hit, ck.site(k_[0]) if k_ else 'quizx/src/tensor.rs', ('%s on %s: %s [%d such cases]' % (fn, hit[0][0], hit[0][1], len(hit))) if hit else '')
+        ck.floor('E3-tensor-comparison-cases', cases, 36)
+        if not bad:
+            decided.add('helpers')
+    except (minirust.NoEval, minirust.Proceed) as ex:
+        ck.ob3('E3-tensor', 'helpers/evaluation', None, 'quizx/src/tensor.rs', 'the evaluator declined (%s: %s)' % (type(ex).__name__, ex))
+    ck.control('E3-tensor: the ndarray host model reproduces documented ndarray behaviour (axis sums, axis swap and layout, broadcasting, two-way slices)', T.host_controls())
+    _c1, _c2 = __import__('qxlib.zxsem', fromlist=['x']).oracle_controls()
+    ck.control('E3-tensor oracle: the fast contraction agrees with the reference contraction on a fixed sample of every family', _c1)
+    return decided
+
+
+def check_run_d0(ck, facts):
+    try:
+        return _d0(ck, facts)
+    except Exception as ex:        # an internal error of the evaluator is undecided, never an alarm
+        ck.ob3('E3-tensor', 'evaluation', None, 'quizx/src/tensor.rs', 'internal error of the evaluator: %s: %s' % (type(ex).__name__, str(ex)[:200]))
+        return set()
+
+
 def _run_own(ck):
     facts = ck.facts
+    ev = check_run_d0(ck, facts)
+    if 'circuit' in ev:
+        ck.positive_only = dict(getattr(ck, 'positive_only', {}), **{'R-TABLE-tensor': 'the circuit evaluator was decided by E3-tensor/circuit-evaluator in this run'})
+    if 'helpers' in ev:
+        ck.positive_only = dict(getattr(ck, 'positive_only', {}), **{'R-PATH': 'compare / scalar_compare were decided end to end by E3-tensor/helpers in this run'})
     ck.decided('D1 per-gate table of Circuit::to_tensor: every unitary kind is a diagonal phase conjugated by Hadamards on exactly the reference positions (or H / swap), only kinds that carry a phase read the gate\'s phase, unsupported kinds fail loudly, gates are applied in reverse order over all gates',
                'D2 decision structure of scalar_eq / scalar_compare / compare')
-    ck.not_decided('the graph evaluator (contraction order, index positions)', 'entry-wise values', 'the float number type')
+    ck.not_decided('diagrams and circuits beyond the evaluated small scope (more than about eight vertices / three qubits, phases outside the multiples of pi/4)', 'H-boxes (the evaluator rejects them)', 'rounding error of the float number type beyond 1e-9 on the small scope')
     key = circuit_tensor_key(facts)
     if key is None:
         ck.violation('R-TABLE-tensor', 'anchor', 'tensor.rs', 'anchor-missing: ToTensor for Circuit')
